@@ -63,11 +63,13 @@ class FieldReader:
             d = self.src.read(3)
             value = (d[0] << 16) + (d[1] << 8) + d[2]
         elif size == 'S0':
-            value = ''
+            data = bytearray()
             d = self.src.read(1)
-            while ord(d) != 0:
-                value += str(d, 'utf-8')
+            while d and d[0] != 0:
+                data += d
                 d = self.src.read(1)
+            # decode the whole string, it might contain multi-byte characters
+            value = str(bytes(data), 'utf-8')
             if self.log and self.log.isEnabledFor(logging.DEBUG):
                 self.log.debug('%s: read %s size=%d pos=%d value="%s"',
                                self.name, field,
